@@ -88,19 +88,28 @@ type hist struct {
 	keptSearch, keptSearchCopy []geom.Geom   // the previous SearchIntersect result and a copy of it
 	looseBox, looseEnv         geom.Bounds   // that box and the true envelope of its subtree
 	palette                    []geom.Bounds // when non-empty most new objects take one of these few boxes
+	scale, offset              float64       // every X is (grid value + offset) * scale; scale is a power of two (1, 2^-570 or 2^1018 with offset 33)
+	sy, oy                     float64       // the same for Y (equal to scale, offset, or 1, 0 when only the X axis is at the end of the range)
 }
 
 func (h *hist) coord() float64 {
 	if h.float {
-		return h.r.Range(0, 20)
+		return (h.r.Range(0, 20) + h.offset) * h.scale
 	}
-	return float64(h.r.Intn(12))
+	return (float64(h.r.Intn(12)) + h.offset) * h.scale
+}
+
+func (h *hist) coordY() float64 {
+	if h.float {
+		return (h.r.Range(0, 20) + h.oy) * h.sy
+	}
+	return (float64(h.r.Intn(12)) + h.oy) * h.sy
 }
 
 func (h *hist) newObj() stored {
 	r := h.r
 	h.nextID++
-	x0, y0 := h.coord(), h.coord()
+	x0, y0 := h.coord(), h.coordY()
 	if h.far > 0 && r.Chance(0.17) {
 		// an outlier 1e6 .. 1e13 times farther away than the local spacing: it shares nodes with
 		// near objects, whose boxes then are hugely elongated
@@ -120,9 +129,10 @@ func (h *hist) newObj() stored {
 		} else {
 			w, ht = float64(r.Intn(4)), float64(r.Intn(4))
 		}
+		w, ht = w*h.scale, ht*h.sy
 	}
 	b := geom.Bounds{Min: geom.Point{X: x0, Y: y0}, Max: geom.Point{X: x0 + w, Y: y0 + ht}}
-	if !h.nn && r.Chance(0.03) {
+	if r.Chance(0.03) {
 		// an object whose bounding box is empty (an empty polygon, the box NewBounds returns): it
 		// can be stored, counted and deleted, and no query box shares a point with it
 		h.c.Count("obj.empty_bounds")
@@ -133,7 +143,7 @@ func (h *hist) newObj() stored {
 		e := geom.NewBounds()
 		return stored{obj: &boxObj{bx: e, id: h.nextID}, box: *e, id: h.nextID}
 	}
-	if !h.nn && r.Chance(0.01) {
+	if !h.nn && h.scale == 1 && r.Chance(0.01) {
 		// a box so large that its area (and every enlargement computed from it) overflows
 		m := math.Pow(10, r.Range(150, 300))
 		b = geom.Bounds{Min: geom.Point{X: -m * r.Range(0.5, 1), Y: -m * r.Range(0.5, 1)}, Max: geom.Point{X: m * r.Range(0.5, 1), Y: m * r.Range(0.5, 1)}}
@@ -290,14 +300,17 @@ func (h *hist) afterOp() {
 		kind := ""
 		switch q {
 		case 0:
-			qb = geom.Bounds{Min: geom.Point{X: -1e9, Y: -1e9}, Max: geom.Point{X: 1e9, Y: 1e9}}
+			qb = geom.Bounds{Min: geom.Point{X: -1e9 * h.scale, Y: -1e9 * h.sy}, Max: geom.Point{X: 1e9 * h.scale, Y: 1e9 * h.sy}}
+			if h.scale > 1 {
+				qb = geom.Bounds{Min: geom.Point{X: -math.MaxFloat64, Y: -math.MaxFloat64}, Max: geom.Point{X: math.MaxFloat64, Y: math.MaxFloat64}}
+			}
 			kind = "whole"
 		case 1:
-			x, y := h.coord(), h.coord()
-			qb = geom.Bounds{Min: geom.Point{X: x, Y: y}, Max: geom.Point{X: x + h.coord()/2, Y: y + h.coord()/2}}
+			x, y := h.coord(), h.coordY()
+			qb = geom.Bounds{Min: geom.Point{X: x, Y: y}, Max: geom.Point{X: x + (h.coord()-h.offset*h.scale)/2, Y: y + (h.coordY()-h.oy*h.sy)/2}}
 			kind = "random"
 		case 2:
-			x, y := h.coord(), h.coord()
+			x, y := h.coord(), h.coordY()
 			qb = geom.Bounds{Min: geom.Point{X: x, Y: y}, Max: geom.Point{X: x, Y: y}}
 			kind = "degenerate"
 			c.Count("query.degenerate")
@@ -306,16 +319,19 @@ func (h *hist) afterOp() {
 				continue
 			}
 			m := h.model[r.Intn(len(h.model))].box
-			step := 1.0
+			step := h.scale
 			if q == 4 {
 				step = 0 // exactly on the edge
 			}
 			// box to the right of m, touching its right edge (step 0) or one grid step away
-			qb = geom.Bounds{Min: geom.Point{X: m.Max.X + step, Y: m.Min.Y}, Max: geom.Point{X: m.Max.X + step + 1, Y: m.Max.Y}}
+			qb = geom.Bounds{Min: geom.Point{X: m.Max.X + step, Y: m.Min.Y}, Max: geom.Point{X: m.Max.X + step + h.scale, Y: m.Max.Y}}
 			kind = "touching"
 			c.Count("query.touching")
 		case 5:
-			qb = geom.Bounds{Min: geom.Point{X: 500, Y: 500}, Max: geom.Point{X: 501, Y: 501}}
+			qb = geom.Bounds{Min: geom.Point{X: 500 * h.scale, Y: 500 * h.sy}, Max: geom.Point{X: 501 * h.scale, Y: 501 * h.sy}}
+			if h.scale > 1 {
+				qb = geom.Bounds{Min: geom.Point{X: 1 * h.scale, Y: 1 * h.sy}, Max: geom.Point{X: 2 * h.scale, Y: 61 * h.sy}}
+			}
 			kind = "empty-region"
 		}
 		var want []stored
@@ -482,9 +498,30 @@ func runHistory(c *core.Ctx, idx int, nn bool) {
 		pp = [][2]int{{25, 50}, {2, 64}, {32, 64}, {3, 100}, {16, 33}, {2, 40}, {10, 32}, {8, 17}, {20, 41}, {5, 48}}[r.Intn(10)] // large fan-outs (route uses 25/50)
 	}
 	h := &hist{c: c, r: r, min: pp[0], max: pp[1], float: r.Chance(0.3), hash: core.NewHasher(), nn: nn}
+	h.scale, h.sy = 1, 1
 	if r.Chance(0.12) {
 		h.far = math.Pow(10, r.Range(6, 13))
 		c.Count("hist.with_far_outliers")
+	} else if r.Chance(0.12) {
+		// the same grids at the ends of the float64 range (exact: a power of two): products of two
+		// coordinate differences underflow to zero, or sums of two coordinates overflow
+		if r.Bool() {
+			h.scale = math.Ldexp(1, -570)
+			h.sy = h.scale
+			c.Count("hist.coordinates_of_magnitude_1e-170")
+		} else {
+			// [33, 61) * 2^1018 = 9.3e307 .. 1.7e308: the sum of two coordinates overflows, their
+			// differences (and the distances) do not
+			h.scale, h.offset = math.Ldexp(1, 1018), 33
+			h.sy, h.oy = h.scale, h.offset
+			if r.Bool() {
+				// only the X axis: squared X differences overflow unless they are exactly zero,
+				// the Y differences are ordinary
+				h.sy, h.oy = 1, 0
+				c.Count("hist.x_of_magnitude_1e308_y_ordinary")
+			}
+			c.Count("hist.coordinates_of_magnitude_1e308")
+		}
 	}
 	if r.Chance(0.15) {
 		// few distinct boxes (1..5) shared by most objects
@@ -522,15 +559,17 @@ func runHistory(c *core.Ctx, idx int, nn bool) {
 		}
 		switch pick {
 		case 8: // concentric boxes stored outside-in (each new box strictly inside all earlier ones), then their common centre as a point
-			cx, cy := h.coord(), h.coord()
+			cx, cy := h.coord(), h.coordY()
 			n := r.IntRange(3, h.max+3)
 			for i := 0; i < n && step(); i++ {
 				half := float64(n-i) * 0.01
 				if !h.float {
 					half = float64(n - i)
 				}
+				halfY := half * h.sy
+				half *= h.scale
 				s := h.newObj()
-				b := geom.Bounds{Min: geom.Point{X: cx - half, Y: cy - half}, Max: geom.Point{X: cx + half, Y: cy + half}}
+				b := geom.Bounds{Min: geom.Point{X: cx - half, Y: cy - halfY}, Max: geom.Point{X: cx + half, Y: cy + halfY}}
 				switch o := s.obj.(type) {
 				case *geom.Bounds:
 					*o = b
@@ -676,22 +715,36 @@ func (h *hist) queryNN() {
 		h.loose = false
 		c.Count("nn.burst_after_loose_envelope")
 	}
+	xOnly := h.scale > 1 && h.sy == 1
+	if xOnly && nq == 6 {
+		// X ordinates that coincide exactly with stored ones are the only X differences whose
+		// square does not overflow: many queries on the grid lines, above, below and between
+		nq = 40
+	}
 	for q := 0; q < nq; q++ {
 		var p geom.Point
 		m := h.model[r.Intn(size)].box
 		cat := ""
 		pick := r.Intn(6)
-		if nq > 6 {
+		if nq > 40 {
 			pick = 5
+		} else if xOnly && r.Chance(0.7) {
+			pick = 6
 		}
 		switch pick {
+		case 6:
+			p = geom.Point{X: []float64{m.Min.X, m.Max.X}[r.Intn(2)], Y: r.Range(-15, 40)}
+			if r.Bool() {
+				p.Y = math.Round(p.Y*2) / 2
+			}
+			cat = "x_equal_to_a_stored_ordinate"
 		case 5:
-			p = geom.Point{X: r.Range(-12, 36), Y: r.Range(-12, 36)}
-			if nq > 6 && r.Chance(0.7) {
+			p = geom.Point{X: (r.Range(-12, 36) + h.offset) * h.scale, Y: (r.Range(-12, 36) + h.oy) * h.sy}
+			if nq > 40 && r.Chance(0.7) {
 				// next to a face of the loose box that its contents no longer reach
 				b, e := h.looseBox, h.looseEnv
 				slackTop, slackBot, slackR, slackL := b.Max.Y-e.Max.Y, e.Min.Y-b.Min.Y, b.Max.X-e.Max.X, e.Min.X-b.Min.X
-				w := math.Max(b.Max.X-b.Min.X, b.Max.Y-b.Min.Y) + 2
+				w := math.Max(b.Max.X-b.Min.X, b.Max.Y-b.Min.Y) + 2*h.scale
 				switch {
 				case slackTop > 0 && r.Chance(0.6):
 					p = geom.Point{X: r.Range(b.Min.X-w, b.Max.X+w), Y: r.Range(e.Max.Y, b.Max.Y+2*slackTop+w)}
@@ -704,11 +757,11 @@ func (h *hist) queryNN() {
 				}
 			}
 			if !h.float && r.Bool() {
-				p = geom.Point{X: math.Round(p.X*4) / 4, Y: math.Round(p.Y*4) / 4}
+				p = geom.Point{X: math.Round(p.X/h.scale*4) / 4 * h.scale, Y: math.Round(p.Y/h.sy*4) / 4 * h.sy} // (the offset is whole)
 			}
 			cat = "around_the_root_box"
 		case 0:
-			p = geom.Point{X: (m.Min.X + m.Max.X) / 2, Y: (m.Min.Y + m.Max.Y) / 2}
+			p = geom.Point{X: m.Min.X/2 + m.Max.X/2, Y: m.Min.Y/2 + m.Max.Y/2}
 			cat = "inside_box"
 		case 1:
 			p = geom.Point{X: m.Max.X, Y: m.Min.Y + (m.Max.Y-m.Min.Y)*r.Float64()}
@@ -717,15 +770,21 @@ func (h *hist) queryNN() {
 			}
 			cat = "point_on_border"
 		case 2:
-			p = geom.Point{X: -5 - r.Range(0, 10), Y: h.coord()}
+			p = geom.Point{X: (-5 - r.Range(0, 10) + h.offset) * h.scale, Y: h.coordY()}
 			if r.Bool() {
-				p = geom.Point{X: h.coord(), Y: 30 + r.Range(0, 10)}
+				p = geom.Point{X: h.coord(), Y: (30 + r.Range(0, 10) + h.oy) * h.sy}
 			}
 			cat = "point_outside_root"
 		case 3:
-			p = geom.Point{X: r.Range(-1e6, 1e6), Y: r.Range(-1e6, 1e6)}
+			p = geom.Point{X: r.Range(-1e6, 1e6) * h.scale, Y: r.Range(-1e6, 1e6) * h.sy}
+			if h.scale > 1 {
+				p.X = r.Range(0, 63) * h.scale
+				if h.sy > 1 {
+					p.Y = r.Range(0, 63) * h.sy
+				}
+			}
 			cat = "far_away"
-			if r.Chance(0.4) {
+			if h.scale == 1 && r.Chance(0.4) {
 				// so far that squared distances leave the float64 range (the distances
 				// themselves stay below 1e301 and are representable)
 				mag := func() float64 {
@@ -737,15 +796,22 @@ func (h *hist) queryNN() {
 				}
 				p = geom.Point{X: mag(), Y: mag()}
 				if r.Chance(0.4) {
-					p.Y = h.coord()
+					p.Y = h.coordY()
 				} else if r.Chance(0.3) {
 					p.X = h.coord()
 				}
 				cat = "beyond_1e140"
 			}
 		default:
-			p = geom.Point{X: h.coord() + r.Float64(), Y: h.coord() + r.Float64()}
+			p = geom.Point{X: h.coord() + r.Float64()*h.scale, Y: h.coordY() + r.Float64()*h.sy}
 			cat = "random"
+		}
+		if h.scale > 1 {
+			// keep the query point finite (63.9 * 2^1018 < MaxFloat64)
+			p.X = math.Max(-63.9*h.scale, math.Min(63.9*h.scale, p.X))
+			if h.sy > 1 {
+				p.Y = math.Max(-63.9*h.sy, math.Min(63.9*h.sy, p.Y))
+			}
 		}
 		c.Count("nn." + cat)
 		dists := make([]float64, size)
@@ -756,7 +822,14 @@ func (h *hist) queryNN() {
 		sort.Float64s(dists)
 		d := h.detail()
 		d["query_point"] = []float64{p.X, p.Y}
-		tol := func(x float64) float64 { return 1e-12 * math.Max(1, x) }
+		tol := func(x float64) float64 { return 1e-12 * math.Max(math.Min(h.scale, h.sy), x) }
+		// distances beyond the float64 range are +Inf on both sides
+		differ := func(got, want float64) bool {
+			if math.IsInf(got, 1) || math.IsInf(want, 1) {
+				return math.IsInf(got, 1) != math.IsInf(want, 1)
+			}
+			return math.Abs(got-want) > tol(want)
+		}
 		// NearestNeighbor
 		c.Eval()
 		c.Count("nn.single")
@@ -770,7 +843,7 @@ func (h *hist) queryNN() {
 			c.Violate("nn1-not-stored", fmt.Sprintf("NearestNeighbor(%v) returned %v which is not a stored object", p, one), d)
 			return
 		}
-		if got := boxDist(p, one.Bounds()); math.Abs(got-dists[0]) > tol(dists[0]) {
+		if got := boxDist(p, one.Bounds()); differ(got, dists[0]) {
 			h.failed = true
 			c.Violate("nn1-distance", fmt.Sprintf("NearestNeighbor(%v) is at distance %v, the minimum is %v", p, got, dists[0]), d)
 			return
@@ -858,13 +931,13 @@ func (h *hist) queryNN() {
 				return
 			}
 			gd := boxDist(p, g.Bounds())
-			if gd < prev-tol(prev) {
+			if gd < prev-tol(prev) && !math.IsInf(prev, 1) || math.IsInf(prev, 1) && !math.IsInf(gd, 1) {
 				h.failed = true
 				c.Violate("nnk-order", fmt.Sprintf("NearestNeighbors(%d): distances not non-decreasing at slot %d (%v after %v)", k, i, gd, prev), d)
 				return
 			}
 			prev = gd
-			if math.Abs(gd-dists[i]) > tol(dists[i]) {
+			if differ(gd, dists[i]) {
 				h.failed = true
 				kk := "k>1"
 				if k == 1 {
